@@ -1131,3 +1131,290 @@ def scen_C08(ctx):
 
 
 SCENARIOS['C08'] = scen_C08
+
+
+# ------------------------------------------------------------------ C11
+def scen_C11(ctx):
+    ctx.rule = ('`multi`: 2..5 maps of mixed key types in one directory, interleaved histories, each map against its own model instance; handles are '
+                'cloned, looked up again and obtained through a cloned FileDb at random points (all must alias one state); after flushes the files '
+                'of every map are compared with the model image, so an update of one map that touches another map\'s files shows as a byte '
+                'difference (L_api + L_img); distinct = distinct op files')
+
+    def one(i):
+        g = G.G(ctx.seed, 'C11', i)
+        r = g.rng
+        nm = r.randrange(2, 6)
+        names = r.sample(['a', 'b', 'ab', 'a_b', 'map1', 'map10', 'x', 'xy', 'key', 'val'], nm)
+        kts = [r.choice(G.KTS) for _ in range(nm)]
+        lines = ['db d0 db']
+        handles = {}       # map index -> list of handle ids
+        keys = {}
+        hid = [0]
+        dbn = [0]
+        for m in range(nm):
+            lines.append('map h%d d0 %s %s %s' % (hid[0], kts[m], names[m], g.params(n=r.choice([1, 4, 16, 64]), bufs=False)))
+            handles[m] = ['h%d' % hid[0]]
+            hid[0] += 1
+            keys[m] = g.key_universe(kts[m], r.choice([3, 8]))
+        dbs = ['d0']
+        for _ in range(ctx.scale(120, 500)):
+            m = r.randrange(nm)
+            c = r.random()
+            if c < 0.05:
+                hid[0] += 1
+                lines.append('mapclone h%d %s' % (hid[0], r.choice(handles[m])))
+                handles[m].append('h%d' % hid[0])
+            elif c < 0.10:
+                hid[0] += 1
+                lines.append('map h%d %s %s %s default' % (hid[0], r.choice(dbs), kts[m], names[m]))
+                handles[m].append('h%d' % hid[0])
+            elif c < 0.13:
+                dbn[0] += 1
+                lines.append('dbclone d%d %s' % (dbn[0], r.choice(dbs)))
+                dbs.append('d%d' % dbn[0])
+            elif c < 0.16 and len(handles[m]) > 1:
+                h = handles[m].pop(r.randrange(len(handles[m])))
+                lines.append('drop %s' % h)
+            elif c < 0.22:
+                lines += ['flush %s' % r.choice(handles[mm]) for mm in range(nm)] + ['snap db']
+            else:
+                h = r.choice(handles[m])
+                lines += g.hist(kts[m], 1, keys=keys[m], mid=h, big=0.01)
+        for m in range(nm):
+            h = r.choice(handles[m])
+            lines += ['len %s' % h, 'iter %s iter' % h]
+        lines += ['closeall', 'snap db']
+        pair(ctx, 'multi', i, lines, stats=g.stats, files_oracle=True, oracle=contents_oracle)
+    parallel(one, range(ctx.scale(60, 400)))
+
+
+SCENARIOS['C11'] = scen_C11
+
+
+# ------------------------------------------------------------------ C12
+def scen_C12(ctx):
+    ctx.rule = ('15 golden directories written by the pinned release 4b82afd (5 key types x 3 histories: deletes, re-used large slots, non-empty free '
+                'lists, value file past 16 KiB) are opened read-only by the current build (contents = committed expectation, files byte-identical '
+                'after close), decoded by the independent decoder, reproduced byte for byte by the model from the committed history (so the model '
+                'state equals the golden image), and then driven by further random histories (L_api + L_img); 64 hash vectors of the crate are '
+                're-proved in Coq on every run (gen/Hash_vectors.v) and 256 frozen (key, hash) vectors are compared; distinct = distinct op files')
+    gd = os.path.join(C.VERIF, 'golden')
+    names = sorted(n for n in os.listdir(gd) if os.path.isdir(os.path.join(gd, n)))
+    import filecmp
+
+    def one(a):
+        i, name = a
+        kt = name.split('_')[0]
+        src = os.path.join(gd, name)
+        exp = {}
+        for l in open(os.path.join(src, 'expected.txt')):
+            k, v = l.split()
+            exp[O.unhex(k)] = O.unhex(v)
+        # (1) read-only open of the golden files by the current build
+        w = os.path.join(ctx.root, 'g_%s' % name)
+        shutil.rmtree(w, ignore_errors=True)
+        os.makedirs(os.path.join(w, 'impl'))
+        shutil.copytree(os.path.join(src, 'db'), os.path.join(w, 'impl', 'db'))
+        ro = ['db d0 db', 'map m0 d0 %s gold default' % kt] + ['get m0 %s' % G.hx(k) for k in sorted(exp)] + ['len m0', 'iter m0 iter', 'closeall']
+        f = os.path.join(w, 'ro.ops')
+        C.write_ops(f, ro)
+        il, ist = C.run_impl(f, os.path.join(w, 'impl'))
+        ctx.evaluations += 1
+        ctx.distinct.add('ro:' + name)
+        bad = None
+        if ist != 'ok':
+            bad = 'opening the golden image ends with %s' % ist
+        else:
+            for j, k in enumerate(sorted(exp)):
+                if il[2 + j] != 'some:' + O.show(exp[k]):
+                    bad = 'golden key %s reads `%s`, the pinned release stored `%s`' % (G.hx(k), il[2 + j], 'some:' + O.show(exp[k])); break
+            if not bad and il[2 + len(exp)] != str(len(exp)):
+                bad = 'len() of the golden image is %s, expected %d' % (il[2 + len(exp)], len(exp))
+            if not bad:
+                v = O.Ideal.check_iter(None, exp, 'iter', il[3 + len(exp)])
+                if v: bad = 'traversal of the golden image: ' + v
+        if not bad:
+            for fn in ('gold.htx', 'gold.key', 'gold.val'):
+                if not filecmp.cmp(os.path.join(src, 'db', fn), os.path.join(w, 'impl', 'db', fn), shallow=False):
+                    bad = 'a read-only session changed %s of the golden image' % fn; break
+        if not bad:
+            probs, reps = O.files_ok(os.path.join(src, 'db'), {'gold': exp})
+            if probs: bad = 'independent decoder on the golden image: ' + '; '.join(probs[:3])
+        if bad:
+            ctx.violation('golden_%s' % name, 'golden image %s (written by abyssiniandb 0.1.4 @ 4b82afd): %s\nreplay: copy /verif/golden/%s/db to <dir>/db and run the ops below with the harness'
+                          % (name, bad, name), ro)
+            return
+        # (2) the model reproduces the golden image byte for byte from the committed history
+        hist = [l for l in C.ops_of(os.path.join(src, 'history.ops'))]
+        mf = os.path.join(w, 'hist_model.ops')
+        C.write_ops(mf, hist + ['snap db'])
+        ml, mst = C.run_model(mf)
+        want = 'snap ' + ' '.join('%s=%s' % (fn, _sum(os.path.join(src, 'db', fn))) for fn in ('gold.htx', 'gold.key', 'gold.val'))
+        if not ml or ml[-1] != want:
+            ctx.disagreements += 1
+            ctx.violation('golden_model_%s' % name, 'correspondence: the model (Layout.render after the committed history) no longer reproduces the golden image %s written by the '
+                          'pinned release: model `%s` vs files `%s`.\nthe current build still reads the image correctly (direct oracle found no failing input)'
+                          % (name, ml[-1][:200] if ml else '', want), hist, found=False)
+            return
+        # (3) further random history on top of the golden image: implementation on the copied files, model continuing from its state
+        g = G.G(ctx.seed, 'C12', i)
+        ks = list(exp.keys())[:8] + g.key_universe(kt, 6)
+        more = ['db d0 db', 'map m0 d0 %s gold default' % kt] + g.hist(kt, ctx.scale(80, 400), keys=ks, big=0.0, maxlen=3000) + \
+               ['iter m0 iter', 'stats m0', 'closeall', 'snap db']
+        # model: history (closed) then `more`; implementation: only `more`, on the golden files
+        mf2 = os.path.join(w, 'more_model.ops')
+        C.write_ops(mf2, hist + more)
+        ml, mst = C.run_model(mf2)
+        shutil.rmtree(os.path.join(w, 'impl'))
+        os.makedirs(os.path.join(w, 'impl'))
+        shutil.copytree(os.path.join(src, 'db'), os.path.join(w, 'impl', 'db'))
+        f2 = os.path.join(w, 'more.ops')
+        C.write_ops(f2, more)
+        il, ist = C.run_impl(f2, os.path.join(w, 'impl'))
+        ctx.evaluations += 1
+        ctx.distinct.add(hashlib.sha1('\n'.join(more).encode()).hexdigest())
+        mtail = ml[len(hist):]
+        for j, op in enumerate(more):
+            a_ = il[j] if j < len(il) else ist
+            b_ = mtail[j] if j < len(mtail) else 'MISSING'
+            if not C.same(op, a_, b_):
+                ctx.disagreements += 1
+                # direct oracle: ideal map seeded with the golden contents
+                ideal = O.Ideal()
+                ideal.dbs['d0'] = 'db'
+                ideal.files[('db', 'gold')] = {'kt': kt, 'm': dict(exp)}
+                badl = ideal.check(more, il)
+                probs, _ = O.files_ok(os.path.join(w, 'impl', 'db'))
+                text = 'golden image %s updated further: correspondence breaks at op %d `%s`: implementation `%s`, model `%s`' % (name, j, op[:100], a_[:150], b_[:150])
+                if badl:
+                    text += '\ndirect oracle: op %d `%s` returned `%s`, the ideal map requires `%s`' % (badl[0][0], badl[0][1][:100], badl[0][2][:100], badl[0][3][:100])
+                elif probs:
+                    text += '\ndirect oracle: independent decoder: ' + '; '.join(probs[:3])
+                ctx.violation('golden_more_%s' % name, text + '\nreplay: copy /verif/golden/%s/db to <dir>/db and run the ops below' % name, more, found=bool(badl or probs))
+                break
+        shutil.rmtree(w, ignore_errors=True)
+    parallel(one, list(enumerate(names)))
+    # frozen hash vectors
+    fv = os.path.join(gd, 'hash_vectors.txt')
+    if os.path.exists(fv):
+        keys = [l.split()[0] for l in open(fv)]
+        want = [l.split()[1] for l in open(fv)]
+        q = os.path.join(ctx.root, 'hv.txt')
+        open(q, 'w').write(''.join('h %s\n' % k for k in keys))
+        r = C.sh([C.HARNESS, 'conv', q], check=True)
+        got = [l.split()[2] for l in r.stdout.strip().split('\n')]
+        ctx.evaluations += len(keys)
+        for k, a_, b_ in zip(keys, got, want):
+            ctx.distinct.add('hv' + k)
+            if a_ != b_:
+                ctx.violation('hash_%s' % k[:16], 'placement hash of key %s is %s, the pinned release computes %s: existing files would not be found' % (k, a_, b_),
+                              ['db d0 db', 'map m0 d0 bytes m B8', 'put m0 %s 01' % k, 'closeall'])
+                break
+
+
+def _sum(path):
+    b = open(path, 'rb').read()
+    return '%d:%x' % (len(b), O.csum(b))
+
+
+SCENARIOS['C12'] = scen_C12
+
+
+# ------------------------------------------------------------------ C13
+def scen_C13(ctx):
+    ctx.rule = ('L_open: all 25 ordered pairs (created as / opened as) of the five key types; for every pair of different types and each of the three '
+                'files, that file alone replaced by the other type\'s; every single-byte mutation of the 16 signature bytes of each file (quick: 24 '
+                'byte values per position incl. +-1, bit flips, 0, 255; thorough: all 255): the open must be rejected before any result and leave all '
+                'files byte-identical; the only accepted foreign opens are the known finding (u64 <-> vu64); distinct = distinct (scenario, case) tuples')
+    kf = [k for k in C.known_findings() if k.get('property') == 'C13']
+    known_pairs = {('u64', 'vu64'), ('vu64', 'u64')} if kf else set()
+    lines = ['db d0 db']
+    expect = [None]
+    # (a) ordered pairs
+    for a in G.KTS:
+        lines += ['db d0 db', 'map m0 d0 %s t_%s B8' % (a, a), 'put m0 %s 0102' % G.hx(G.vu64(5)), 'closeall', 'snap db']
+        expect += [None] * 5
+    for a in G.KTS:
+        for b in G.KTS:
+            lines += ['db d0 db', 'map m0 d0 %s t_%s default' % (b, a)]
+            expect += [None, ('pair', a, b)]
+            lines += ['get m0 %s' % G.hx(G.vu64(5))] if a == b or (a, b) in known_pairs else []
+            expect += [None] if a == b or (a, b) in known_pairs else []
+            lines += ['closeall', 'snap db']
+            expect += [None, ('unchanged',)]
+    r = pair(ctx, 'pairs', 0, lines)
+    il = r.get('impl_lines') or []
+    ops = lines
+    if r.get('ok'):
+        base = None
+        for j, (op, e) in enumerate(zip(ops, expect)):
+            if j >= len(il): break
+            if op == 'snap db' and e is None:
+                base = il[j]
+            if e and e[0] == 'pair':
+                a, b = e[1], e[2]
+                if a != b and il[j] == 'ok':
+                    if (a, b) in known_pairs:
+                        ctx.known.append('class=u64-vs-vu64-signature files created as %s open as %s (identical type signatures)' % (a, b))
+                    else:
+                        ctx.violation('pair_%s_%s' % (a, b), 'files created for key type %s were opened as %s without being rejected' % (a, b), ops[:j + 1])
+                if a == b and il[j] != 'ok':
+                    ctx.violation('pair_%s_%s' % (a, b), 'files created for key type %s cannot be opened as %s: %s' % (a, b, il[j]), ops[:j + 1])
+            if e and e[0] == 'unchanged' and base and il[j] != base:
+                ctx.violation('changed_%d' % j, 'an open (rejected or read-only) changed the files: before `%s` after `%s`' % (base[:200], il[j][:200]), ops[:j + 1])
+    # (b) one file replaced by another type's, (c) signature byte mutations: harness only + direct oracle
+    import random
+    rng = random.Random('%s/C13' % ctx.seed)
+    base = ['db d0 db'] + sum([['map m%s d0 %s t_%s B8' % (a, a, a), 'put m%s %s 0102' % (a, G.hx(G.vu64(5)))] for a in G.KTS], []) + ['closeall', 'snap db']
+    cases = []
+    for a in G.KTS:
+        for b in G.KTS:
+            if a == b or (a, b) in known_pairs: continue
+            for ext in ('key', 'val', 'htx'):
+                cases.append(('foreign', a, b, ext))
+    sig_bytes = {}
+    for a in G.KTS:
+        for ext in ('key', 'val', 'htx'):
+            for pos in range(16):
+                cases.append(('mut', a, ext, pos))
+    lines = list(base)
+    marks = []
+    sigs = {'string': b'string\0\0', 'bytes': b'bytes\0\0\0', 'i64': b'i64_le\0\0', 'u64': b'u64_le\0\0', 'vu64': b'u64_le\0\0'}
+    s1 = {'key': b'abysdbK\0', 'val': b'abysdbV\0', 'htx': b'abysdbH\0'}
+    for cs in cases:
+        if cs[0] == 'foreign':
+            _, a, b, ext = cs
+            lines += ['cpfile db t_%s.%s keep.%s' % (a, ext, ext), 'cpfile db t_%s.%s t_%s.%s' % (b, ext, a, ext), 'snap db',
+                      'db d0 db', 'map mx d0 %s t_%s default' % (a, a)]
+            marks.append((len(lines) - 1, cs, None))
+            lines += ['closeall', 'snap db', 'cpfile db keep.%s t_%s.%s' % (ext, a, ext)]
+        else:
+            _, a, ext, pos = cs
+            orig = (s1[ext] + sigs[a])[pos]
+            vals = set([(orig + 1) % 256, (orig - 1) % 256, 0, 255, orig ^ 1, orig ^ 0x20, orig ^ 0x80] + [rng.randrange(256) for _ in range(17)]) if ctx.quick else set(range(256))
+            vals.discard(orig)
+            for v in sorted(vals):
+                # a mutation of a type signature into the other type of the known pair is the known finding, not a new one
+                lines += ['mutate db t_%s.%s %d %d' % (a, ext, pos, v), 'snap db', 'db d0 db', 'map mx d0 %s t_%s default' % (a, a)]
+                marks.append((len(lines) - 1, cs, v))
+                lines += ['closeall', 'snap db', 'mutate db t_%s.%s %d %d' % (a, ext, pos, orig)]
+    il, ist = impl_only(lines, os.path.join(ctx.root, 'mx'), op_timeout=30)
+    ctx.evaluations += len(marks)
+    ctx.scen_counts['foreign+mutations'] = len(marks)
+    for j, cs, v in marks:
+        ctx.distinct.add(str((cs, v)))
+        if j >= len(il):
+            ctx.violation('mx_crash', 'the open matrix ended with %s' % ist, lines[:j + 1]); break
+        before, after = il[j - 2], il[j + 2] if j + 2 < len(il) else None
+        if il[j] == 'ok' or not (il[j] == 'panic' or il[j].startswith('err')):
+            ctx.violation('accepted_%s' % '_'.join(str(x) for x in cs), 'open accepted files with a foreign/mutated signature: case %s value %s -> `%s`' % (cs, v, il[j]),
+                          base[:-1] + lines[j - 3:j + 1]); break
+        if after is not None and before != after:
+            ctx.violation('rejected_open_wrote_%s' % '_'.join(str(x) for x in cs), 'a rejected open changed the files: case %s value %s: before `%s` after `%s`' % (cs, v, before[:200], after[:200]),
+                          base[:-1] + lines[j - 3:j + 3]); break
+    if len(ctx.samples) < 6:
+        ctx.samples.append({'scenario': 'mutations', 'ops': lines[len(base):len(base) + 8]})
+    shutil.rmtree(os.path.join(ctx.root, 'mx'), ignore_errors=True)
+
+
+SCENARIOS['C13'] = scen_C13
